@@ -1,4 +1,5 @@
 import Cuckoo.Props.C02
+import Cuckoo.Proofs.C10Aux
 /-!
 # C10 — resize limits and explicit resize requests are honoured exactly
 
@@ -128,5 +129,63 @@ theorem reserve_keeps_contents [DecidableEq κ] (c : Cfg κ) (locked : Bool) (t 
 /-! non-vacuity -/
 example : (Table.init (κ := Nat) (ν := Nat) { S := 4, M := 4, hash := id, simple := true, nothrowMove := true, hpLimit := 20 } 16).hp = 2 := by
   decide
+
+/-! ### the table is at least as large as requested
+
+`Spec.reserveCalc` (the model of `reserve_calc`, which sizes every freshly constructed table, in particular the temporary
+map of `cuckoo_expand_simple`) searches 66 steps and therefore saturates at hashpower 66; real hashpowers are below 64
+(`size_t`).  The statements below carry the corresponding range hypothesis (`n ≤ 66`, resp. a request that
+`reserve_calc` can represent, resp. `t.hp ≤ 66`): without it they are false in the model for allocation limits
+`c.hpLimit > 66`. -/
+
+/-- after `rehash(n)` returned (normally), the hashpower is at least `n` — whether the request grew the table, shrank it
+(the rebuild grows again if the contents need more), or was a no-op -/
+theorem rehash_at_least [DecidableEq κ] (c : Cfg κ) (locked : Bool) (t : Table κ ν) (n : Nat) (h : Inv c t) (b : Bool)
+    (hn : n ≤ 66)
+    (hok : (t.rehash c locked n).2 = .ok b) : n ≤ (t.rehash c locked n).1.hp := by
+  unfold Table.rehash at hok ⊢
+  split
+  · rename_i heq
+    exact Nat.le_of_eq heq
+  · rename_i hne
+    rw [if_neg hne] at hok
+    exact C10A.expandSimple_hp_ge c locked false _ t n n h hn (Nat.le_refl _) b hok
+
+/-- after `reserve(n)` returned (normally), the capacity is at least `n` (for every request `n` whose bucket count
+`reserve_calc` can represent — in particular every `size_t`) -/
+theorem reserve_at_least [DecidableEq κ] (c : Cfg κ) (locked : Bool) (t : Table κ ν) (n : Nat) (h : Inv c t) (b : Bool)
+    (hn : (n + c.S - 1) / c.S ≤ 2 ^ 66)
+    (hok : (t.reserve c locked n).2 = .ok b) : n ≤ (t.reserve c locked n).1.capacity c := by
+  have hen := Spec.reserveCalc_enough c.S n h.S_pos hn
+  have key : Spec.reserveCalc c.S n ≤ (t.reserve c locked n).1.hp := by
+    unfold Table.reserve at hok ⊢
+    dsimp only at hok ⊢
+    split
+    · rename_i heq
+      exact Nat.le_of_eq heq
+    · rename_i hne
+      rw [if_neg hne] at hok
+      exact C10A.expandSimple_hp_ge c locked false _ t _ _ h (C10A.reserveCalc_le_66 _ _) (Nat.le_refl _) b hok
+  unfold Table.capacity
+  exact Nat.le_trans hen (Nat.mul_le_mul_right _ (Nat.pow_le_pow_right (by decide) key))
+
+/-- and the returned flag says whether the hashpower changed: `false` exactly when the request equals the current size -/
+theorem rehash_flag [DecidableEq κ] (c : Cfg κ) (locked : Bool) (t : Table κ ν) (n : Nat) (b : Bool)
+    (hok : (t.rehash c locked n).2 = .ok b) : b = decide (n ≠ t.hp) := by
+  unfold Table.rehash at hok
+  split at hok
+  · rename_i heq
+    cases hok
+    simp [heq]
+  · rename_i hne
+    have := (C10A.expandSimple_ok_le_limit c locked false _ t n b hok).2
+    simp [this, hne]
+
+/-- the hashpower never decreases while elements are inserted (automatic expansion only grows the table) -/
+theorem insert_never_shrinks [DecidableEq κ] (c : Cfg κ) (t : Table κ ν) (k : κ) (v : ν) (ctxAware mayErase : Bool)
+    (fn : Ctx → ν → FnOut ν) (h : Inv c t) (hhp : t.hp ≤ 66) :
+    t.hp ≤ (t.uprase c false k v ctxAware mayErase fn).1.hp := by
+  rw [C10A.uprase_hp]
+  exact C10A.insertLoop_hp_ge c false _ t k t.hp h (by intro hh; cases hh) hhp (Nat.le_refl _)
 
 end Cuckoo.Props.C10
